@@ -213,7 +213,7 @@ def lift_item(src, kind, name, with_attrs=True):
     return src[start:end]
 
 
-def build_lifted(twin, spec_path):
+def build_lifted(twin, spec_path, wanted=None):
     """spec: {"out": "src/server/verif_lifted.rs", "header": "env/lifted_header.rs",
               "mod_decl_in": "src/server.rs", "mod_decl": "...",
               "items": [{"file": "src/server.rs", "kind": "fn", "name": "receive_acks"}, ...]}"""
@@ -221,6 +221,8 @@ def build_lifted(twin, spec_path):
         specs = json.load(f)
     report = []
     for spec in specs:
+        if wanted is not None and spec["out"] not in wanted:
+            continue
         parts = [open(os.path.join(VERIF, spec["header"])).read(), "\n// ---- lifted verbatim from the current source ----\n"]
         for it in spec["items"]:
             src = open(os.path.join(REPO, it["file"])).read()
@@ -243,7 +245,10 @@ def build_lifted(twin, spec_path):
 
 # ---------------------------------------------------------------------------------------
 
-def generate(flavour, out):
+def generate(flavour, out, only=None):
+    """`only`: set of harness files (paths relative to harness/<flavour>/) to include; None = all.
+    Lifted modules are generated when their harness file is included or another included lifted
+    module requires them."""
     if os.path.exists(out):
         shutil.rmtree(out)
     os.makedirs(out)
@@ -283,14 +288,27 @@ def generate(flavour, out):
         spec = os.path.join(VERIF, "env", "lifted.json")
         lifted = []
         if os.path.exists(spec):
-            lifted = build_lifted(out, spec)
-            for sp in json.load(open(spec)):
-                expected_new.add(sp["out"])
-                add(sp["mod_decl_in"], "append", "\n" + sp["mod_decl"] + "\n")
+            specs = json.load(open(spec))
+            wanted = {sp["out"] for sp in specs if only is None or sp["out"] in only}
+            changed = True
+            while changed:
+                changed = False
+                for sp in specs:
+                    if sp["out"] in wanted:
+                        for req in sp.get("requires", []):
+                            if req not in wanted:
+                                wanted.add(req)
+                                changed = True
+            lifted = build_lifted(out, spec, wanted)
+            for sp in specs:
+                if sp["out"] in wanted:
+                    expected_new.add(sp["out"])
+                    add(sp["mod_decl_in"], "append", "\n" + sp["mod_decl"] + "\n")
     else:
         lifted = []
 
-    targeted = {rel for rel, _ in harness_files(flavour)}
+    selected = [(rel, full) for rel, full in harness_files(flavour) if only is None or rel in only]
+    targeted = {rel for rel, _ in selected}
     for rel, line in PRELUDE.items():
         if rel not in targeted:
             continue
@@ -301,7 +319,7 @@ def generate(flavour, out):
         open(p, "w").write(text)
         add(rel, "insert", line)
 
-    for rel, full in harness_files(flavour):
+    for rel, full in selected:
         p = os.path.join(out, rel)
         if not os.path.exists(p):
             raise TwinError(f"harness target {rel} missing in the current tree")
